@@ -44,12 +44,15 @@ REQUIRED_OBS = {'supercells_checked': 20, 'exhaustive_supercells': 8, 'configs_c
 CASE_TIMEOUT = 600
 CHUNK = 4
 COORD_LIMIT = {1: 10 ** 6, 2: 30, 3: 14, 4: 9}
+MULTI3 = ('b2', 'l12', 'rocksalt')
 NAMES3 = ('sc', 'fcc', 'bcc', 'diamond', 'hcp', 'omega', 'rumpled', 'b2', 'l12', 'tet', 'rocksalt')
 
 
 def cases(tier, seed):
     n = 40 if tier == 'quick' else 400
-    return [{'seed': seed, 'idx': i, 'hashseed': i % 4, 'tier': tier, 'mode': 'large' if i % 4 == 3 else 'small'} for i in range(n)]
+    # feature slices are fixed by the case index so that every run sees every regime
+    return [{'seed': seed, 'idx': i, 'hashseed': i % 4, 'tier': tier, 'mode': 'large' if i % 4 == 3 else 'small',
+             'spec': i % 3 == 1, 'vac': i % 5 in (0, 3), 'jn': i % 2 == 0} for i in range(n)]
 
 
 def named3(name):
@@ -134,13 +137,17 @@ def run_case(case):
     budget = 4e5 if tier == 'quick' else 4e6
     # ---------------- crystal, sublattices, clusters ----------------
     for attempt in range(30):
+        wantspec = bool(case.get('spec'))
         if rng.uniform() < 0.45:
-            kind = NAMES3[int(rng.integers(len(NAMES3)))]
+            names = MULTI3 if wantspec else NAMES3
+            kind = names[int(rng.integers(len(names)))]
             crys = named3(kind)
         else:
-            crys, spec = gen.rand_crystal(rng, dim=3, nchem=int(rng.integers(1, 4)), maxatoms=5 if not small else 4)
+            crys, spec = gen.rand_crystal(rng, dim=3, nchem=int(rng.integers(2, 4)) if wantspec else int(rng.integers(1, 4)),
+                                          norbits=int(rng.integers(2, 4)) if wantspec else None, maxatoms=5 if not small else 4)
             kind = spec['kind']
-        nspec = int(rng.integers(0, crys.Nchem))  # at least one mobile species
+        if wantspec and crys.Nchem < 2: continue
+        nspec = int(rng.integers(1 if wantspec else 0, crys.Nchem))  # at least one mobile species
         spectator = sorted(int(x) for x in rng.choice(crys.Nchem, size=nspec, replace=False))
         mobile = [c for c in range(crys.Nchem) if c not in spectator]
         nmob = sum(len(crys.basis[c]) for c in mobile)
@@ -151,7 +158,7 @@ def run_case(case):
         order = int(rng.choice([1, 2, 2, 3, 3, 3, 4]))
         cutoff = rc.choose_cutoff(geo, allowed, order, rng, COORD_LIMIT)
         if small:
-            S, sup = rand_supercell(rng, crys, spectator, cutoff, nmob, 2, nexh)
+            S, sup = rand_supercell(rng, crys, spectator, cutoff, nmob, 4, nexh)
         else:
             S, sup = rand_supercell(rng, crys, spectator, cutoff, nmob, nexh + 1, 60)
         if sup is not None: break
@@ -175,12 +182,12 @@ def run_case(case):
     # vacancy
     vac = None
     vchem = None
-    if rng.uniform() < 0.4 and nmobile >= 2:
+    if case.get('vac', rng.uniform() < 0.4) and nmobile >= 2:
         vac = int(rng.integers(nmobile))
         sup.addvacancy(vac)
         vci = sup.mobileindices[vac % sup.Nmobile]
         vchem = vci[0]
-    usejn = rng.uniform() < 0.45
+    usejn = bool(case.get('jn', rng.uniform() < 0.45))
     chem = None
     if usejn:
         chem = vchem if vac is not None else mobile[int(rng.integers(len(mobile)))]
